@@ -5,10 +5,10 @@
        fold_equals agrees on ASCII elements — a finite check over the fold tables regenerated from /repo);
    (2) hence the PikeVM model returns the same match (range, every capture, next start) in both modes, for
        every node kind;
-   (3) and so does the backtracking model (prefilter-free search) for programs without Loop1CharBody.
+   (3) and so does the backtracking model (prefilter-free search), for every node kind.
    Hypotheses: IR shape (top_shape, ir_wf / bt_wf) and definedness of the IR semantics on the search, both
-   evaluated by the driver on every generated case.  Not proved: Loop1CharBody in the backtracker, the prefilter,
-   iteration (C09).  On the implementation, ascii vs utf8 is evaluated on every ASCII haystack of the streams. *)
+   evaluated by the driver on every generated case.  Not proved: the prefilter (C04),
+   iteration (C09 proves it from the first-match function).  On the implementation, ascii vs utf8 is evaluated on every ASCII haystack of the streams. *)
 From RV Require Import Base.
 From RV.Model Require Import Utf8 Indexer CodePointSet Insn IR Optimizer Unfold Emit Pike BT Exec Fold.
 From RV.Spec Require Import IRSem IRShape.
